@@ -891,6 +891,15 @@ struct Harness
           c.count("traces_validated_against_impl");
           bool ok = compare(P, M2, opc);
           if(ok) ok = write_probe(P, M2, opc);
+          if(!ok)
+          {
+            // the implementation state is inconsistent: running the destructors could double-free and kill the
+            // search, so the containers are abandoned (leaked) and the pool is emptied by hand
+            for(int k = 0; k < 3; ++k) (void)P.s[k].release();
+            scrub_pool();
+            c.outcome("violation");
+            continue;
+          }
           std::string ky;
           if(ok) ky = key_of(P, M2);
           ok = teardown(P, fwd, opc) && ok;
